@@ -309,7 +309,7 @@ def run(ctx):
             Q(2, rng.choice(["km", "ms", "MiB", "kg/s"]))   # the parser has resolved prefixed symbols before
         except Exception:
             pass
-        e = 41 + k + 50 * ctx.shard
+        e = 41 + (k + 50 * ctx.shard) % 240   # 2.5 * 10**e must stay a float
         how = rng.choice(["anonymous-first-by-arithmetic", "anonymous-first-by-constructor", "fresh"])
         if how == "anonymous-first-by-arithmetic":
             (2 * (Prefix(10, e - 1) * m.Unit._by_name["meter"])) * Q(3, Prefix(10, 1) * m.One)
